@@ -20,7 +20,10 @@ def specs(tier):
     ex = ["fieldpts", "profiles", "bpsign", "meshmeta", "regions"]
     S = [gridlab.tokamak_spec("lsn", fpol="linear", pressure="parab", extract=ex),
          gridlab.tokamak_spec("ldn", fpol="linear", pressure="parab", extract=ex),
-         gridlab.tokamak_spec("udn", fpol="linear", pressure="parab", extract=ex)]
+         gridlab.tokamak_spec("udn", fpol="linear", pressure="parab", extract=ex),
+         # the analytic circular family with a sheared safety factor q(r) = a0 + a1 r^2
+         gridlab.circular_spec(options={"number_of_processors": 1, "R0": 2.3, "B0": 3.2, "q_coefficients": [1.5, 2.0],
+                                        "r_inner": 0.3, "r_outer": 0.9, "nx": 5, "ny": 12}, extract=ex)]
     if tier == "thorough":
         S += [gridlab.tokamak_spec("cdn", fpol="linear", pressure="parab", options={"orthogonal": False}, extract=ex),
               gridlab.tokamak_spec("usn", fpol="negconst", pressure="parab", extract=ex),
@@ -90,7 +93,11 @@ def oracle_grid(res, g):
                         "region %s: file %r, expected %r" % (np.nanmax(err), pr["regions"][rid]["name"], float(v["pressure"][i]), float(pe[i]))))
     elif "expected_pressure" in pr:
         bad.append(("pressure-missing", "a pressure profile was given but the grid file has no pressure"))
-    # scalars
+    # scalars (tokamak equilibria: the circular family has neither an X-point nor a tabulated axis value)
+    if "psi_axis" not in v or "psi_at_o" not in pr:
+        for wid, msg in bad:
+            res.violation(wid, msg + " [" + name + "]", spec)
+        return not bad
     if abs(float(v["psi_axis"]) - pr["psi_at_o"]) > 1e-12 * max(1, abs(pr["psi_at_o"])) or max(abs(x) for x in pr["grad_at_o"]) > 2e-3 * pr["o_point"][0]:
         bad.append(("psi_axis", "psi_axis is not psi at a point where grad psi vanishes (|grad| = %.3g)" % max(abs(x) for x in pr["grad_at_o"])))
     # find_critical accepts an X-point when Br^2 + Bz^2 < xpoint_refine_atol (1e-6), i.e. |grad psi| < R * 1e-3
